@@ -30,6 +30,8 @@ METHODS = ("npe", "lltsa", "lpp")
 NV = 4   # model variants asked per exact case: current, before F42, before F25, before F9
 
 TRUSTED = [
+    "translate/t_eig.py (owned by C05; regenerates coq/gen/EigSelect.v from the tree under test) — trusted to report "
+    "the selection expressions of generalized_eigendecomposition.hpp; Pencil_Proof_Tie.v ties the model's selector to it",
     "hand-written model Pencil_Model.v tied by exact differential testing on dyadic inputs (not a proof about the C++ text)",
     "Eigen oracles (DESIGN 1.3): selfadjointView<Upper>().rankUpdate writes only entries i<=j; "
     "DenseMatrix(selfadjointView<Upper>()) materialises both triangles; GeneralizedSelfAdjointEigenSolver reads "
@@ -307,9 +309,13 @@ def eval_k(ctx, exe1, mexe, cases, stats, reads="lower"):
                 elif cls == "before-F42":
                     sig = "F42-lltsa-shift-uncentred"
                     what = " (tables equal the model of the tree before fix F42: lhs built from uncentred features)"
+                fd = first_diff(impl, models["current"], D)
+                if stats["spec_fail"] < 2 and not c["gen"].startswith("corpus"):
+                    c = shrink_k(ctx, exe1, mexe, c, reads)
+                    fd += " (before shrinking)"
                 ctx.violation(c, "construct_%s eigenproblem: what the generalised solver reads (%s triangles) of the "
                                  "returned tables is not (X (W+W^T) X^T, X B X^T) [LLTSA: X centred]%s; first differing entry: %s"
-                              % (c["method"], reads, what, first_diff(impl, models["current"], D)), signature=sig)
+                              % (c["method"], reads, what, fd), signature=sig)
                 stats["spec_fail"] += 1
                 continue
             stats["spec_ok"] += 1
@@ -322,6 +328,50 @@ def eval_k(ctx, exe1, mexe, cases, stats, reads="lower"):
                     ctx.note("tables differ from the model outside the triangle the solver reads (not a "
                              "verdict): %s %s" % (c["method"], first_diff(impl, models["current"], D)))
     return len(cases)
+
+
+def k_spec_fails(ctx, exe1, mexe, c, reads="lower"):
+    """does the implementation's own output fail the extracted spec on this single exact case?"""
+    res, info = run_lines(ctx, exe1, [k_line_impl(c)], timeout=60)
+    if info[0] is not None:
+        return True
+    line = res[0]
+    if not line.startswith("K ok"):
+        return True
+    D = c["D"]
+    t = parse_tagged(line, ("lhs", "rhs"))
+    try:
+        lhs = [Fraction(parse_hex(x)) for x in t.get("lhs", [])]
+        rhs = [Fraction(parse_hex(x)) for x in t.get("rhs", [])]
+    except (ValueError, OverflowError):
+        return True
+    if len(lhs) != D * D or len(rhs) != D * D:
+        return True
+    if reads == "upper":
+        lhs = [lhs[j * D + k] for k in range(D) for j in range(D)]
+        rhs = [rhs[j * D + k] for k in range(D) for j in range(D)]
+    sr = ctx.run(mexe, "S " + k_body_model(c) + " " + " ".join(frac_token(x) for x in lhs) + " "
+                 + " ".join(frac_token(x) for x in rhs) + "\n", timeout=60)
+    return sr.out.strip() != "spec 1"
+
+
+def shrink_k(ctx, exe1, mexe, c, reads="lower"):
+    """fewer stored entries, fewer features (samples are kept: LLTSA needs N = 2^k for exactness)"""
+    try:
+        W = vlib.shrink_list(c["W"], lambda w: k_spec_fails(ctx, exe1, mexe, dict(c, W=w), reads), max_steps=40)
+        c2 = dict(c, W=W)
+        if not k_spec_fails(ctx, exe1, mexe, c2, reads):
+            c2 = c
+        f = c2["D"] - 1
+        while f >= 0 and c2["D"] > 1:
+            c3 = dict(c2, D=c2["D"] - 1, X=[r for i, r in enumerate(c2["X"]) if i != f])
+            if k_spec_fails(ctx, exe1, mexe, c3, reads):
+                c2 = c3
+            f -= 1
+        c2["gen"] = c["gen"] + "+shrunk"
+        return c2
+    except Exception:  # noqa  (shrinking is best effort)
+        return c
 
 
 def lower_only_zero(tabs, D):
@@ -523,12 +573,16 @@ def e_line(c, X=None):
 
 
 def parse_e(line, N, D, d):
-    t = parse_tagged(line, ("shape", "P", "mean", "Y", "M", "dv"))
+    t = parse_tagged(line, ("shape", "chain", "P", "mean", "Y", "M", "dv"))
     shape = [int(x) for x in t["shape"]]
     if shape != [D, d, N, d]:
         return {"shape": shape}
     out = {"shape": shape, "P": [parse_hex(x) for x in t["P"]], "mean": [parse_hex(x) for x in t["mean"]],
            "Y": [parse_hex(x) for x in t["Y"]], "Mtok": t["M"], "dvtok": t["dv"]}
+    ch = t.get("chain", [])
+    if len(ch) == 6:
+        out["chain"] = {"calls": int(ch[0]), "d": int(ch[1]), "smallest": int(ch[2]),
+                        "dl": parse_hex(ch[3]), "dr": parse_hex(ch[4]), "dp": parse_hex(ch[5])}
     return out
 
 
@@ -575,6 +629,21 @@ def eval_e(ctx, exe1, exe2, cases, stats, rng, rotate_every=2):
                           % (c["method"], p["shape"], c["D"], c["d"], c["N"], c["d"]))
             continue
         (rot if isrot else base)[i] = p
+        # structural chain embed() = construct_* -> generalized_eigendecomposition(SmallestEigenvalues, d) -> project:
+        # the dense pencil recorded at the call site inside the method against the routine called by the harness
+        ch = p.get("chain")
+        if ch is not None:
+            good = ch["calls"] == 1 and ch["d"] == c["d"] and ch["smallest"] == 1 and \
+                0 <= ch["dl"] <= 1e-9 and 0 <= ch["dr"] <= 1e-9 and 0 <= ch["dp"] <= 1e-12
+            if good:
+                stats["chain_ok"] += 1
+            else:
+                stats["chain_bad"] += 1
+                ctx.mismatch(c, "methods/*.hpp glue: embed(%s) does not hand construct_*'s pencil (lhs, rhs) with "
+                                "target_dimension and SmallestEigenvalues to the dense generalised solver and return its "
+                                "eigenvectors as the projection matrix: %s" % (c["method"], ch))
+        else:
+            stats["chain_missing"] += 1
     # reference arithmetic (command R of the light binary) for every base run
     rl, ridx = [], []
     for i, p in base.items():
@@ -709,9 +778,37 @@ def eval_e(ctx, exe1, exe2, cases, stats, rng, rotate_every=2):
 
 
 # ----------------------------------------------------------------------------- driver
+def translate(ctx):
+    """T-eig: regenerate coq/gen/EigSelect.v (owned by C05, shared) from the tree under test; Pencil_Proof_Tie.v
+    proves that the model's column selector is the expression found in generalized_eigendecomposition.hpp"""
+    import importlib
+    import os
+    import sys
+    tdir = os.path.join(ctx.verif, "translate")
+    if tdir not in sys.path:
+        sys.path.insert(0, tdir)
+    try:
+        mod = importlib.import_module("t_eig")
+    except Exception as ex:  # noqa
+        ctx.note("translate/t_eig.py not importable (%r): generated table left as it is" % (ex,))
+        return None
+    out = os.path.join(ctx.verif, "coq", "gen", "EigSelect.v")
+    try:
+        text = mod.emit(mod.parse(ctx.repo))
+    except mod.TranslateError as ex:
+        ctx.unshown("t_eig cannot read the selection expressions of the solver front ends any more: %s" % ex)
+        return None
+    except OSError as ex:
+        ctx.unshown("t_eig: %s" % ex)
+        return None
+    mod.write_if_changed(out, text)
+    return text
+
+
 def build_all(ctx):
     """Coq, extraction and the two C++ builds side by side"""
     out, err = {}, {}
+    table_text = translate(ctx)
 
     def job(name, fn):
         try:
@@ -722,7 +819,16 @@ def build_all(ctx):
             err[name] = vlib.BuildError("%s: %r" % (name, ex))
 
     def coq_then_extract():
-        out["coq"] = ctx.coq()
+        import os
+        res = ctx.coq()
+        gen = os.path.join(ctx.verif, "coq", "gen", "EigSelect.v")
+        if table_text is not None and not res.ok and os.path.exists(gen) and open(gen).read() != table_text:
+            # another check regenerated the shared table from ANOTHER tree while we were building
+            ctx.note("coq/gen/EigSelect.v was rewritten by a concurrent run from another tree; rebuilding once")
+            ctx._unshown[:] = [u for u in ctx._unshown if "proof obligations" not in u]
+            translate(ctx)
+            res = ctx.coq()
+        out["coq"] = res
         return ctx.extract()
 
     ts = [threading.Thread(target=job, args=("mexe", coq_then_extract)),
@@ -743,7 +849,7 @@ def build_all(ctx):
 def new_stats():
     return {"malformed": 0, "spec_ok": 0, "spec_fail": 0, "other_triangle_differs": 0, "g_ok": 0,
             "select_bad": 0, "e_ok": 0, "e_fail": 0, "ref_failed": 0, "rot_ok": 0, "rot_fail": 0,
-            "rot_cols": 0, "rot_skipped_gap": 0, "rot_skipped_unstable_M": 0, "rot_max_M_reldiff": 0.0, "rot_min_cos": 1.0, "e_max_res": 0.0, "triangle_votes": {}}
+            "chain_ok": 0, "chain_bad": 0, "chain_missing": 0, "rot_cols": 0, "rot_skipped_gap": 0, "rot_skipped_unstable_M": 0, "rot_max_M_reldiff": 0.0, "rot_min_cos": 1.0, "e_max_res": 0.0, "triangle_votes": {}}
 
 
 K_KINDS = ("plain", "plain", "correlated", "symmetric", "alignment", "empty", "zero")
